@@ -2,7 +2,8 @@
 
 Texts are abstract: a line is known by its whitespace tokens (ghost WS_LEN/WS_ARR, the assumed model of str.split /
 " ".join), a decimal token by ISDIGIT/STRINT with the assumed law STRINT(str(n)) == n (pyvc.values.numstr_axioms).
-The contracts here cover lines whose operands are written as numbers; named ports go through the finite tables of C09."""
+An operand token is a decimal number or a keyword of the table of the port expression (contracts/c_port_names.py: the table is a ghost map, assumed equal
+to what PortName(protocol, platform, version).names() returns; its entries are decided one by one in C09)."""
 import z3
 from pyvc import spec as S
 from pyvc.contract import contract
@@ -10,6 +11,7 @@ from pyvc.values import TInt, TBool, TStr, TList, TObj, SList, ISDIGIT, STRINT, 
 from . import schemas  # noqa
 from .c_port import OPS, ALL, P, valid, valid0, ascending, _op, _mem
 from . import c_port  # noqa
+from .c_port_names import val as _tokval, known as _known, table_axioms, t  # noqa  (t: proved contract of Port._line__items_to_ints for numbers and keywords)
 
 schema_done = True
 
@@ -18,50 +20,19 @@ def same_list(A, B):
     return z3.And(A.n == B.n, S.forall(0, A.n, lambda i: A.a[i] == B.a[i]))
 
 
-def _ints_ok(items):
-    """every operand token is a decimal number"""
-    return S.forall(0, items.n, lambda i: ISDIGIT(items.a[i]))
+def _val(cx, self, items, i):
+    """the number the i-th token denotes for this port expression (decimal text, or keyword of its table)"""
+    return _tokval(cx, self, items.a[i])
 
 
-def _val(items, i):
-    return STRINT(items.a[i])
-
-
-def _asc_vals(items):
+def _asc_vals(cx, self, items):
     i, j = z3.Ints("i!av j!av")
-    return z3.ForAll([i, j], z3.Implies(z3.And(0 <= i, i < j, j < items.n), _val(items, i) <= _val(items, j)))
+    return z3.ForAll([i, j], z3.Implies(z3.And(0 <= i, i < j, j < items.n), _val(cx, self, items, i) <= _val(cx, self, items, j)))
 
 
-def _refused(cx, self, items):
-    """the refusals of _line__items_to_ints for numeric operands, transcribed from Cisco's grammar (C08/C01):
-    no operand; an operand outside 0..65535; lt/gt with other than one operand; range with other than two; several
-    operands for eq/neq where the platform allows one"""
-    op = _op(cx, self)
-    n = items.n
-    plat = S._t(cx.get(self, "_platform"))
-    return z3.Or(n == 0,
-                 S.exists(0, n, lambda i: z3.Or(_val(items, i) < 0, _val(items, i) > ALL)),
-                 z3.And(z3.Or(op == "lt", op == "gt"), n != 1),
-                 z3.And(op == "range", n != 2),
-                 z3.And(z3.Or(op == "eq", op == "neq"), z3.Or(plat == "asa", plat == "nxos"), n != 1))
-
-
-t = contract("cisco_acl.port.Port._line__items_to_ints#digits", dict(self=TObj("Port"), items=TList(TStr)), TList(TInt), props=("C08",),
-             ghost={"str_shape": "range", "loop_var_types": {"ports": TList(TInt)}, "axioms": numstr_axioms()})
-t.require("digits", lambda cx, self, items: _ints_ok(items))
-t.may_raise("ValueError", lambda cx, self, items: _refused(cx, self, items), exact=True)
-t.ensure("length", lambda cx, result, self, items: result.n == items.n)
-t.ensure("ascending", lambda cx, result, self, items: ascending(result, strict=False))
-t.ensure("same numbers", lambda cx, result, self, items: z3.And(
-    S.forall(0, items.n, lambda i: _mem(result, _val(items, i))),
-    S.forall(0, result.n, lambda j: S.exists(0, items.n, lambda i: result.a[j] == _val(items, i)))))
 t.ensure("kept when already ascending", lambda cx, result, self, items: z3.Implies(
-    _asc_vals(items),
-    S.forall(0, items.n, lambda i: result.a[i] == _val(items, i))))
-t.ensure("range", lambda cx, result, self, items: S.forall(0, result.n, lambda j: z3.And(0 <= result.a[j], result.a[j] <= ALL)))
-t.loop(0, lambda cx, k, v: z3.And(v.ports.n == k, S.forall(0, k, lambda j: v.ports.a[j] == _val(v.items, j))))
-t.loop(1, lambda cx, k, v: z3.And(v.ports.n == v.items.n, S.forall(0, v.items.n, lambda j: v.ports.a[j] == _val(v.items, j)),
-                                  S.forall(0, k, lambda j: z3.And(0 <= v.ports.a[j], v.ports.a[j] <= ALL))))
+    _asc_vals(cx, self, items),
+    S.forall(0, items.n, lambda i: result.a[i] == _val(cx, self, items, i))))
 
 
 # ---------------------------------------------------------------- assumed here
@@ -100,16 +71,17 @@ def _refused_line(cx, self, line):
     return z3.And(T.n > 0, z3.Or(
         z3.Not(z3.Or(*[op == o for o in OPS])),
         n == 0,
-        S.exists(0, n, lambda i: z3.Or(_val(O, i) < 0, _val(O, i) > ALL)),
+        S.exists(0, n, lambda i: z3.And(z3.Not(ISDIGIT(O.a[i])), z3.Not(_known(cx, self, O.a[i])))),
+        S.exists(0, n, lambda i: z3.Or(_val(cx, self, O, i) < 0, _val(cx, self, O, i) > ALL)),
         z3.And(z3.Or(op == "lt", op == "gt"), n != 1),
         z3.And(op == "range", n != 2),
         z3.And(z3.Or(op == "eq", op == "neq"), z3.Or(plat == "asa", plat == "nxos"), n != 1)))
 
 
 PFIELDS = ["Port._operator", "Port._items", "Port._ports", "Port._sport"]
-ls = contract("cisco_acl.port.Port.line.fset#digits", dict(self=TObj("Port"), line=TStr), None, props=("C08",), modifies=PFIELDS,
-              ghost={"str_shape": "range", "axioms": numstr_axioms()})
-ls.require("numeric operands >= 1 (lt / gt / neq: >= 0)", lambda cx, self, line: S.forall(1, toks(line).n, lambda i: z3.And(
+ls = contract("cisco_acl.port.Port.line.fset#tokens", dict(self=TObj("Port"), line=TStr), None, props=("C08",), modifies=PFIELDS,
+              ghost={"str_shape": "range", "axioms": numstr_axioms() + table_axioms()})
+ls.require("numeric operands >= 1 (lt / gt / neq: >= 0)", lambda cx, self, line: S.forall(1, toks(line).n, lambda i: z3.Implies(
     ISDIGIT(toks(line).a[i]), z3.Or(STRINT(toks(line).a[i]) >= 1, z3.And(STRINT(toks(line).a[i]) >= 0, z3.Or(*[toks(line).a[0] == o for o in ("lt", "gt", "neq")]))))))
 ls.may_raise("ValueError", _refused_line, exact=True)
 ls.ensure("empty", lambda cx, result, self, line: z3.Implies(toks(line).n == 0, z3.And(
@@ -118,12 +90,12 @@ ls.ensure("operator", lambda cx, result, self, line: z3.Implies(toks(line).n > 0
 ls.ensure("operands", lambda cx, result, self, line: z3.Implies(toks(line).n > 0, z3.And(
     cx.get(self, "_items").n == toks(line).n - 1,
     valid0(_op(cx, self), cx.get(self, "_items")),
-    z3.Implies(S.forall(0, operands(line).n, lambda i: _val(operands(line), i) >= 1), valid(_op(cx, self), cx.get(self, "_items"))),
-    S.forall(0, operands(line).n, lambda i: _mem(cx.get(self, "_items"), _val(operands(line), i))),
-    S.forall(0, cx.get(self, "_items").n, lambda j: S.exists(0, operands(line).n, lambda i: cx.get(self, "_items").a[j] == _val(operands(line), i))))))
+    z3.Implies(S.forall(0, operands(line).n, lambda i: _val(cx, self, operands(line), i) >= 1), valid(_op(cx, self), cx.get(self, "_items"))),
+    S.forall(0, operands(line).n, lambda i: _mem(cx.get(self, "_items"), _val(cx, self, operands(line), i))),
+    S.forall(0, cx.get(self, "_items").n, lambda j: S.exists(0, operands(line).n, lambda i: cx.get(self, "_items").a[j] == _val(cx, self, operands(line), i))))))
 ls.ensure("operands kept when written ascending", lambda cx, result, self, line: z3.Implies(
-    z3.And(toks(line).n > 0, _asc_vals(operands(line))),
-    S.forall(0, operands(line).n, lambda i: cx.get(self, "_items").a[i] == _val(operands(line), i))))
+    z3.And(toks(line).n > 0, _asc_vals(cx, self, operands(line))),
+    S.forall(0, operands(line).n, lambda i: cx.get(self, "_items").a[i] == _val(cx, self, operands(line), i))))
 # (also true for the empty expression: no operator, no port)
 ls.ensure("ports sound", lambda cx, result, self, line: S.forall(
     0, cx.get(self, "_ports").n, lambda i: P(_op(cx, self), cx.get(self, "_items"), cx.get(self, "_ports").a[i])))
